@@ -19,7 +19,7 @@ from scipy import stats as sps
 
 from vlib import modelgen as mg
 from vlib import stats
-from vlib.lz import jax, jnp, lsl, tfd
+from vlib.lz import jax, jnp, lsl, tfb, tfd
 from vlib.runner import Sub, Violation, require
 
 PROPERTY = "C17"
@@ -56,7 +56,11 @@ def gen():
         skip_kind = draw(st.sampled_from(["none", "none", "var", "dist", "value"]))
         skip_idx = draw(st.integers(0, depth - 1))
         return {"depth": depth, "shape": shape, "links": links, "auto_update": draw(st.booleans()), "seed": draw(st.integers(0, 2**20)),
-                "skip_kind": skip_kind, "skip_idx": skip_idx, "observed_leaf": draw(st.booleans()), "extra_branch": draw(st.booleans()), "int_leaf": draw(st.integers(0, 3)) == 0}
+                "skip_kind": skip_kind, "skip_idx": skip_idx, "observed_leaf": draw(st.booleans()), "extra_branch": draw(st.booleans()), "int_leaf": draw(st.integers(0, 3)) == 0,
+                # children transformed through the bijector-class path (v = 2 t, t unconstrained); transformed variables added to the builder first
+                "transformed": [draw(st.integers(0, 3)) == 0 for _ in range(depth)], "t_first": draw(st.booleans()),
+                # the model is out of date when simulate() is entered: a hyperparameter was assigned with auto-update off and auto-update restored without update()
+                "stale_entry": draw(st.integers(0, 3)) == 0}
 
     return g()
 
@@ -65,8 +69,13 @@ def build(c):
     shp = {"scalar": (), "vec5": (5,), "mat34": (3, 4), "batch4": (4,)}[c["shape"]]
     child_shape = (3, 4) if c["shape"] == "batch4" else shp
     vs = []
-    root = lsl.param(np.zeros(shp, dtype=np.float32) + 1.0, lsl.Dist(tfd.Normal, loc=np.float32(0.0), scale=np.float32(50.0)), name="v0")
+    if c.get("stale_entry"):
+        hyper = lsl.Var(np.float32(0.0), name="h")
+        root = lsl.param(np.zeros(shp, dtype=np.float32) + 1.0, lsl.Dist(tfd.Normal, loc=lsl.Calc(lambda h: 10.0 * jnp.asarray(h), hyper, _name="root_loc"), scale=np.float32(1e-3)), name="v0")
+    else:
+        root = lsl.param(np.zeros(shp, dtype=np.float32) + 1.0, lsl.Dist(tfd.Normal, loc=np.float32(0.0), scale=np.float32(50.0)), name="v0")
     vs.append(root)
+    tvars = []
     for i, ln in enumerate(c["links"], start=1):
         parent = vs[-1]
         fn = G[ln["g"]][1]
@@ -92,13 +101,16 @@ def build(c):
         # (the last variable may hold an integer-typed placeholder: simulate keeps the shape of the current value, not its dtype)
         init = (np.zeros(shape_i, dtype=np.int32) + 2) if (c.get("int_leaf") and i == len(c["links"])) else (np.zeros(shape_i, dtype=np.float32) + 2.0)
         v = mk(init, lsl.Dist(tfd.Normal, loc=loc, scale=np.float32(1e-3)), name=f"v{i}")
+        if mk is lsl.param and (c.get("transformed") or [False] * 9)[i] and init.dtype == np.float32:
+            tvars.append(v.transform(tfb.Scale, np.float32(2.0)))       # bijector class with arguments: v becomes weak, v = 2 * v_transformed
         vs.append(v)
     extra = []
     if c["extra_branch"]:
         # a second child of the root through its own cached calculation
         loc = lsl.Calc(lambda x: 2.0 * jnp.asarray(x), vs[0], _name="branch_link")
         extra.append(lsl.obs(np.zeros(vs[1].value.shape, dtype=np.float32), lsl.Dist(tfd.Normal, loc=loc, scale=np.float32(1e-3)), name="w"))
-    model = lsl.GraphBuilder().add(*vs, *extra).build_model()
+    order = (tvars + vs + extra) if c.get("t_first") else (vs + extra + tvars)
+    model = lsl.GraphBuilder().add(*order).build_model()
     return model, vs, extra
 
 
@@ -106,19 +118,34 @@ def skip_names(c, model):
     if c["skip_kind"] == "none":
         return []
     name = f"v{c['skip_idx']}"
+    if name + "_transformed" in model.vars:
+        name = name + "_transformed"        # the distribution now belongs to the unconstrained variable
     var = model.vars[name]
     return [{"var": name, "dist": var.dist_node.name, "value": var.dist_node.at.name}[c["skip_kind"]]]
+
+
+H_NEW = 2.0
+
+
+def prepare(model, c):
+    """auto-update setting of the case; optionally the model is left out of date on entry (hyperparameter assigned with auto-update off)"""
+    if c.get("stale_entry"):
+        model.auto_update = False
+        model.vars["h"].value = np.float32(H_NEW)
+    model.auto_update = c["auto_update"]
 
 
 def oracle(c):
     det = lambda: f"{c}"  # noqa: E731
     model, vs, extra = build(c)
-    model.auto_update = c["auto_update"]
+    prepare(model, c)
     before = {v.name: np.asarray(v.value).copy() for v in vs + extra}
     skip = skip_names(c, model)
     key = jax.random.PRNGKey(c["seed"])
     ret = model.simulate(key, skip=skip)
     require(ret is model, "simulate-does-not-return-model", det)
+    if not c["auto_update"] and any(v.name + "_transformed" in model.vars for v in vs):
+        model.update()      # a transformed variable is a calculation of the drawn unconstrained one: with auto-update off it is current after update()
     after = {v.name: np.asarray(v.value).copy() for v in vs + extra}
     skipped = {f"v{c['skip_idx']}"} if skip else set()
     for nm in before:
@@ -127,6 +154,11 @@ def oracle(c):
             require(np.array_equal(after[nm], before[nm]), "skipped-variable-changed", lambda: f"{nm}; {det()}")
         else:
             require(not np.array_equal(after[nm], before[nm]), "non-skipped-variable-not-drawn", lambda: f"{nm}; {det()}")
+    if c.get("stale_entry") and "v0" not in skipped:
+        v0 = after["v0"].astype(np.float64)
+        if not np.all(np.abs(v0 - 10.0 * H_NEW) <= 9e-3):
+            sig = "child-drawn-at-stale-parent-value" if np.all(np.abs(v0) <= 9e-3) else "child-not-drawn-around-new-parent-value"
+            require(False, sig, lambda: f"v0 (model out of date on entry, auto_update={c['auto_update']}): {v0.reshape(-1)[:3].tolist()} expected about {10.0 * H_NEW}; {det()}")
     # ancestral: each non-skipped child sits at g(new parent)
     for i, ln in enumerate(c["links"], start=1):
         nm = f"v{i}"
@@ -152,13 +184,15 @@ def oracle(c):
             require(False, sig, lambda: f"w (second branch, auto_update={c['auto_update']}): {w.reshape(-1)[:3].tolist()} vs {exp.reshape(-1)[:3].tolist()}; {det()}")
     # determinism in the seed
     m2, vs2, ex2 = build(c)
-    m2.auto_update = c["auto_update"]
+    prepare(m2, c)
     m2.simulate(key, skip=skip)
+    m2.update()
     for v in vs2 + ex2:
         require(np.array_equal(np.asarray(v.value), after[v.name]), "same-seed-different-result", lambda: f"{v.name}; {det()}")
     m3, vs3, ex3 = build(c)
-    m3.auto_update = c["auto_update"]
+    prepare(m3, c)
     m3.simulate(jax.random.PRNGKey(c["seed"] + 1), skip=skip)
+    m3.update()
     if "v0" not in skipped:
         require(not np.array_equal(np.asarray(vs3[0].value), after["v0"]), "different-seed-same-result", det)
     # coherence after update()
@@ -166,7 +200,13 @@ def oracle(c):
     require(not any(n.outdated for n in model.nodes.values()), "outdated-after-update", det)
     lp = 0.0
     vals = {nm: after[nm].astype(np.float64) for nm in after}
-    lp += float(np.sum(sps.norm.logpdf(vals["v0"], 0.0, 50.0)))
+    if c.get("stale_entry"):
+        lp += float(np.sum(sps.norm.logpdf(vals["v0"], 10.0 * H_NEW, 1e-3)))
+    else:
+        lp += float(np.sum(sps.norm.logpdf(vals["v0"], 0.0, 50.0)))
+    for i, tr in enumerate(c.get("transformed") or []):
+        if f"v{i}_transformed" in model.vars:
+            lp += float(np.size(vals[f"v{i}"]) * np.log(2.0))        # density of t = v / 2:  log p(2 t) + log 2 per element
     mag = abs(lp)
     for i, ln in enumerate(c["links"], start=1):
         t = sps.norm.logpdf(vals[f"v{i}"], np.broadcast_to(G[ln["g"]][0](vals[f"v{i - 1}"]), vals[f"v{i}"].shape), 1e-3)
@@ -178,7 +218,7 @@ def oracle(c):
         mag += float(np.sum(np.abs(t))) + float(np.sum(np.abs(vals["w"]))) * 4e2
     got = float(np.asarray(model.log_prob))
     # float32: (x - mu)/1e-3 with |x| ~ 50 has absolute error ~ 4e-6/1e-3 per element on the z-score; compare loosely but meaningfully
-    zerr = sum(float(np.sum((4e-6 * np.abs(vals[k]) / 1e-3 + 1) ** 2 + 2 * 8 * (4e-6 * np.abs(vals[k]) / 1e-3))) for k in vals if k != "v0")
+    zerr = sum(float(np.sum((4e-6 * np.abs(vals[k]) / 1e-3 + 1) ** 2 + 2 * 8 * (4e-6 * np.abs(vals[k]) / 1e-3))) for k in vals if k != "v0" or c.get("stale_entry"))
     require(abs(got - lp) <= 1e-4 * (abs(lp) + 1) + zerr, "model-incoherent-after-simulate-and-update", lambda: f"log_prob {got} oracle {lp} (tol {1e-4 * (abs(lp) + 1) + zerr:.3g}); {det()}")
     cached_off = (not c["auto_update"]) and any(ln["via"] in ("calc", "wvar", "bare", "chain_kw", "chain_pos") or (ln["via"] == "direct" and ln["g"] != "id") for ln in c["links"])
     nt = cached_off or bool(skip)
@@ -249,7 +289,7 @@ def sim_digest(c):
     import hashlib
 
     model, vs, extra = build(c)
-    model.auto_update = c["auto_update"]
+    prepare(model, c)
     model.simulate(jax.random.PRNGKey(c["seed"]), skip=skip_names(c, model))
     h = hashlib.sha256()
     for v in vs + extra:
